@@ -156,7 +156,14 @@ func c17r3(c *RC) {
 			return false
 		}
 		t := expr(be.X) + " " + expr(be.Y)
-		return strings.Contains(t, "len(out)") && strings.Contains(t, "NumOut()")
+		outP := "out"
+		if fn.Type.Params != nil && len(fn.Type.Params.List) > 0 {
+			last := fn.Type.Params.List[len(fn.Type.Params.List)-1]
+			if len(last.Names) > 0 {
+				outP = last.Names[len(last.Names)-1].Name
+			}
+		}
+		return strings.Contains(t, "len("+outP+")") && strings.Contains(t, "NumOut()")
 	}
 	isType := func(cond ast.Expr) bool {
 		be, ok := ast.Unparen(cond).(*ast.BinaryExpr)
@@ -303,6 +310,14 @@ func c17r4(c *RC) {
 			continue
 		}
 		loc, _ := fl.LocOf(read)
+		// the variables receiving the read's count and error
+		nV, errV := "n", "err"
+		ast.Inspect(fn.Body, func(m ast.Node) bool {
+			if a, ok := m.(*ast.AssignStmt); ok && len(a.Lhs) == 2 && len(a.Rhs) == 1 && ast.Unparen(a.Rhs[0]) == ast.Expr(read) {
+				nV, errV = expr(a.Lhs[0]), expr(a.Lhs[1])
+			}
+			return true
+		})
 		loop := enclosingLoop(fn.Body, read)
 		if loop == nil {
 			c.Fail(q+"|loops", pr.Pos(read.Pos()), "the read of the current reader is not inside a loop: an exhausted or momentarily empty reader ends the whole stream")
@@ -320,13 +335,13 @@ func c17r4(c *RC) {
 				errKnown, rows := false, false
 				for _, f := range s.Facts {
 					k := stripAt(f.key)
-					if k == "err" && (f.eq && f.val != "nil" || !f.eq && f.val == "nil") {
+					if k == errV && (f.eq && f.val != "nil" || !f.eq && f.val == "nil") {
 						errKnown = true
 					}
-					if k == "n>0" && f.eq && f.val == "true" {
+					if k == nV+">0" && f.eq && f.val == "true" {
 						rows = true
 					}
-					if k == "n" && !f.eq && f.val == "0" {
+					if k == nV && !f.eq && f.val == "0" {
 						rows = true
 					}
 				}
